@@ -174,7 +174,7 @@ Section Floats.
     map_err (with_span (i_span i))
       (match l with
        | LStr s => float_from_string is64 s
-       | LFloat d _ =>
+       | LFloat d _ | LInt d _ =>          (* a literal without a fraction is a float too *)
            match pf is64 d with
            | Some b => Ok (VFloat b)
            | None => Err (from_syn (i_span i) "invalid float literal")
